@@ -6,7 +6,7 @@ import re
 VERIF = os.path.dirname(os.path.dirname(os.path.abspath(__file__)))
 
 
-ROUNDS = """Five rounds of independent seeding (sub-agents in scratch worktrees of /repo; they see the twenty property texts, the list of
+ROUNDS = """Six rounds of independent seeding (sub-agents in scratch worktrees of /repo; they see the twenty property texts, the list of
 earlier changes so that nothing is repeated, and nothing of /verif): `Cnn-A/B` and `Cnn-A2/B2` one agent per property (rounds 1, 2);
 `K01..K12` one agent per component (round 3); `S01..S10` per component with the instruction to damage what the recent `fix:` commits
 established without reverting them (round 4); `R01..R12` per property again, for the properties with the fewest changes so far
@@ -21,7 +21,16 @@ or missing lock record with the started-leading callback ahead of the renew loop
 storage-metrics wrapper (C15; R09-A/B); a key space over 1100..1300 real mock-cluster regions (C13, C12; R06-B); the prev_kv of a DELETE
 event on a watch served through a FOLLOWER (C16, C18; R10-B); the edge of a full dealing window under a dozen concurrent dealers
 (`TestTsoWindowEdge`: a concrete duplicate for R01-A, which the broken shape fact of KB.C18Cas had reported without an input).
-All 24 round-5 changes are caught now; the table is regenerated from the `result.json` files.
+All 24 round-5 changes are caught now. Round 6 (`T01..T08`, per property: C01 C05 C07 C09 C11 C17 C18 C20; 8 of 16 missed at first,
+all of them fault- or configuration-dependent) -> write batches that are begun and never brought to Commit are counted by the harness
+wrapper (production: the in-memory engine holds its store mutex from BeginBatchWrite to Commit, such a node is wedged; the wrapper
+begins lazily and had hidden it) and compaction requests in every order (C20, C08; T08-A); delete calls answered "outcome unknown"
+(mask kind `u`) and a transient iterator error at every position of the compaction scan (C07; T03-A/B); the repair's READ failing
+once (`step R f=rd`, model: `failed_get` keeps the head) and the regenerated fact that the repair waits `RetryInterval` for every
+entry it examines (C09; T04-A/B - a commit that lands late is outside the fault oracle of the models, the fact is the tie);
+compare-and-delete of a record removed after it was read (`itdel remove=1`, C11; T05-B); updates that carry a client lease and an
+Event updated within its ttl on the native-ttl engines (whole or gone, never half; C17; T06-A/B). All 16 are caught now.
+The table is regenerated from the `result.json` files.
 
 """
 
